@@ -67,7 +67,7 @@ CHECKS = {
         'technique': 'contract-based deductive verification (Verus) + lemmas + complete Kani table harness',
     },
     'C09': {
-        'text': 'Unbounded deductive proof (Verus) on verbatim bodies of CountMatrix::from_sequences (the count matrix holds exactly the per-position occurrence counts; Err exactly when lengths differ), CountMatrix::to_freq (cell = (count + pseudocount) / row total of those sums), FrequencyMatrix::to_weight (cell = frequency / background of its column, zero where the background is zero) FrequencyMatrix::into_scoring (cell = log2(frequency / background), negative infinity where the background is zero) and Background::{new, from_counts, from_sequence} (new: accepted iff every entry passes the range test and the running f32 sum equals 1.0; from_counts / from_sequence: refused exactly when nothing was counted, else frequency k = count k / total, the wildcard counted only on request). IEEE arithmetic is left UNINTERPRETED: the proofs decide which operands each cell is computed from, for every matrix size and alphabet, not numeric facts. Also proved, in the same structural sense: WeightMatrix::{to_scoring_with_base, to_scoring, rescale}, FrequencyMatrix::to_scoring, the From conversions between WeightMatrix and ScoringMatrix, and a lemma that the one-step and two-step routes hold the same cells given two named float facts. The numeric clauses (rows sum to one, min/max score bounds), FrequencyMatrix::new, Background::from_sequences and ScoringMatrix::{min_score, max_score} are written as iterator-adapter chains outside the verifier and are covered by the bounded native sweep only.',
+        'text': 'Unbounded deductive proof (Verus) on verbatim bodies of CountMatrix::from_sequences (the count matrix holds exactly the per-position occurrence counts; Err exactly when lengths differ), CountMatrix::to_freq (cell = (count + pseudocount) / row total of those sums), FrequencyMatrix::to_weight (cell = frequency / background of its column, zero where the background is zero) FrequencyMatrix::into_scoring (cell = log2(frequency / background), negative infinity where the background is zero) and Background::{new, from_counts, from_sequence, from_sequences} (new: accepted iff every entry passes the range test and the running f32 sum equals 1.0; from_counts / from_sequence: refused exactly when nothing was counted, else frequency k = count k / total, the wildcard counted only on request). IEEE arithmetic is left UNINTERPRETED: the proofs decide which operands each cell is computed from, for every matrix size and alphabet, not numeric facts. Also proved, in the same structural sense: WeightMatrix::{to_scoring_with_base, to_scoring, rescale}, FrequencyMatrix::to_scoring, the From conversions between WeightMatrix and ScoringMatrix, and a lemma that the one-step and two-step routes hold the same cells given two named float facts. The numeric clauses (rows sum to one, min/max score bounds), FrequencyMatrix::new and ScoringMatrix::{min_score, max_score} are written as iterator-adapter chains outside the verifier and are covered by the bounded native sweep only.',
         'design_ref': 'DESIGN.md section 5, C09; section 11.8',
         'note': 'Trusted: Verus/Z3; float operations uninterpreted (A-F0..2, A-W10); S1/S2 instantiations; desugaring rules R1, R4, T1, RIM, RIMm, RZR, RZE, RZM (row iterators visit rows in order: A-IT2).',
         'technique': 'contract-based deductive verification (Verus, real bodies extracted per run; floats uninterpreted); native sweep as bounded cross-check',
